@@ -88,6 +88,7 @@ typedef std::vector<std::string> Toks;
 #include "drv_time.inc"
 #include "drv_dec.inc"
 #include "drv_val.inc"
+#include "drv_exp.inc"
 #include "drv_more.inc"
 
 int main(int argc, char** argv) {
@@ -105,6 +106,8 @@ int main(int argc, char** argv) {
             else if (c == "T") cmd_time(t);
             else if (c == "D") cmd_dec(t);
             else if (c == "S") cmd_struct(t);
+            else if (c == "X") cmd_exp(t);
+            else if (c == "F") cmd_file(t);
             else if (!cmd_more(t)) OUT("? unknown command %s", c.c_str());
         }
         catch (std::exception& e) { OUT("throw %s", classify(e)); }
